@@ -186,7 +186,15 @@ class Workload:
             # the simulated servers run without --enable-shutdown: they answer with an error line
             if rng.random() < 0.3:
                 k["graceful"] = rng.choice([True, False])
-        elif m in ("version", "stats", "quit"):
+        elif m == "stats":
+            r = rng.random()
+            if r < 0.15:
+                a = [E("settings")]
+            elif r < 0.3:
+                a = [E(rng.choice(["reset", b"reset"]))]        # answered by the single line RESET
+            elif r < 0.4:
+                a = [E("detail"), E(rng.choice(["on", "off"]))]
+        elif m in ("version", "quit"):
             pass
         return {"t": "call", "m": m, "a": a, "k": k}
 
